@@ -34,15 +34,16 @@ structure Sem (s : Schema) (env : RequestEnv) (w : World) : Prop where
 def binOpOK : BinaryOp → Bool
   | .eq | .less | .lessEq | .add | .sub | .mul | .contains | .containsAll | .containsAny | .hasTag | .getTag | .mem => true
 
--- THE SECOND PROVED FRAGMENT (strict mode): see Thm/C03.lean.  `if` has arbitrary branches; record literals have distinct keys
--- (Rust's `ExprKind::Record` is a map); a slot is in the fragment when the environment is linked for it.
+-- THE SECOND PROVED FRAGMENT (strict mode): see Thm/C03.lean.  Every construct; record literals have distinct keys
+-- (Rust's `ExprKind::Record` is a map); a slot is in the fragment when the environment is linked for it; `unknown` is in it
+-- vacuously (the model does not type it: `outside`).
 mutual
 def InFragment2 (env : RequestEnv) : Expr → Bool
   | .lit _ => true
   | .var _ => true
   | .slot .principal => env.principalSlot.isSome
   | .slot .resource => env.resourceSlot.isSome
-  | .unknown _ _ => false
+  | .unknown _ _ => true
   | .ite c t e => InFragment2 env c && InFragment2 env t && InFragment2 env e
   | .and a b => InFragment2 env a && InFragment2 env b
   | .or a b => InFragment2 env a && InFragment2 env b
